@@ -61,7 +61,81 @@ def matrices_by_R(system):
     return {key: {tuple(R): X[i] for i, R in enumerate(iR.tolist())} for key, X in system._XX_R.items()}
 
 
+PENDING = os.environ.get("VERIF_C20_PENDING", "") == "1"
+SHELLS = {"s": ("s",), "p": ("p",), "d": ("d",), "sp3": ("sp3",), "s+p": ("s", "p"), "s+d": ("s", "d"), "p+d": ("p", "d")}
+
+
+def spaced(rng, species, orbital):
+    """the projection string 'X:orb', sometimes with blanks around the separator and at the ends (the documented parser strips them)"""
+    if rng.random() < 0.25:
+        b = [" " * int(rng.integers(0, 3)) for _ in range(4)]
+        return f"{b[0]}{species}{b[1]}:{b[2]}{orbital}{b[3]}"
+    return f"{species}:{orbital}"
+
+
+def as_form(rng, x, kind):
+    """the same argument value in another container form: list / tuple / ndarray"""
+    form = ("list", "tuple", "array")[int(rng.integers(3))]
+    if kind == "positions":
+        a = np.array(x, dtype=float)
+        return (a.tolist() if form == "list" else tuple(tuple(r) for r in a.tolist()) if form == "tuple" else a), form
+    if kind == "names":
+        return (list(x) if form == "list" else tuple(x) if form == "tuple" else np.array(list(x))), form
+    raise ValueError(kind)
+
+
+def npz_roundtrip(system):
+    import tempfile
+    import shutil
+    from wannierberri.system.system_R import System_R
+    d = tempfile.mkdtemp(prefix="c20npz", dir="/tmp")
+    try:
+        with env.quiet():
+            system.to_npz(os.path.join(d, "s"))
+            return System_R.from_npz(os.path.join(d, "s"))
+    finally:
+        shutil.rmtree(d, ignore_errors=True)
+
+
+def block_maxima(system, keys, slices):
+    """{key: array[iR, block_i, block_j] of max |X| over the block}: the granularity at which the documented cutoff acts"""
+    out = {}
+    for key in keys:
+        X = np.abs(system._XX_R[key])
+        X = X.reshape(X.shape[:3] + (-1,)).max(axis=-1)
+        out[key] = np.array([[[X[iR, si, sj].max() for sj in slices] for si in slices] for iR in range(X.shape[0])])
+    return out
+
+
+def truncate_blocks(system, cuts, slices):
+    """harness-side truncation: zero every (R, block_i, block_j) of matrix `key` none of whose elements exceeds cuts[key]"""
+    dropped = 0
+    for key, c in cuts.items():
+        X = system._XX_R[key]
+        for iR in range(X.shape[0]):
+            for si in slices:
+                for sj in slices:
+                    if not np.any(np.abs(X[iR, si, sj]) > c):
+                        X[iR, si, sj] = 0
+                        dropped += 1
+    return dropped
+
+
+def pick_cutoff(rng, values):
+    """a cutoff strictly between two neighbouring block maxima (tie guard: relative distance > 1e-4 to both), in the lower 60 %"""
+    v = np.unique(np.asarray(values, dtype=float))
+    v = v[v > 0]
+    if len(v) < 4:
+        return None
+    for _ in range(20):
+        i = int(rng.integers(0, max(1, int(0.6 * len(v)))))
+        if i + 1 < len(v) and v[i + 1] > v[i] * (1 + 1e-3):
+            return float(np.sqrt(v[i] * v[i + 1]))
+    return None
+
+
 def case(ctx, rng, idx, state):
+    import copy
     import wannierberri as wb
 
     names = [t["name"] for t in gen_groups.STRUCTURES]
@@ -72,66 +146,210 @@ def case(ctx, rng, idx, state):
             break
     pos = np.array(struct["positions"], dtype=float) % 1.0
     atom_names = list(struct["atom_names"])
+    mag = struct.get("magmoms")
+    # --- the same crystal with its atoms listed in another order (equal as a set, ordered differently)
+    atoms_permuted = False
+    will_merge = bool(len(set(atom_names)) > 1 and rng.random() < 0.25)
+    if len(atom_names) > 1 and rng.random() < (0.7 if will_merge else 0.3):
+        perm = rng.permutation(len(atom_names))
+        atoms_permuted = not np.array_equal(perm, np.arange(len(perm)))
+        pos = pos[perm]
+        atom_names = [atom_names[i] for i in perm]
+        mag = None if mag is None else np.array(mag)[perm]
+    # --- two species of the template given one name: atoms of one name on different Wyckoff positions (documented, with a warning);
+    # the crystal may get a higher symmetry or a non-primitive cell: the group is always the one the code finds
+    merged = False
+    if will_merge:
+        sp_all = sorted(set(atom_names))
+        a, b = rng.choice(len(sp_all), size=2, replace=False)
+        atom_names = [sp_all[a] if n == sp_all[b] else n for n in atom_names]
+        merged = True
     species = []
     for n in atom_names:
         if n not in species:
             species.append(n)
-    mag = struct.get("magmoms")
     soc = bool(mag is not None or rng.random() < 0.5)
-    # orbitals per species (total size limited)
+    doubled = bool(soc and rng.random() < 0.2)     # a spinless model made spinful by System_R.double_spin() before it is symmetrised
+    # orbitals per species (total size limited): one shell, or two shells given as separate projections or combined with ';'
     for _ in range(50):
         orbs = {}
         for sp in species:
             choices = ["s", "p", "d"] if rng.random() < 0.9 else ["s"]
+            if rng.random() < 0.3:
+                choices = choices + ["s+p", "s+d", "p+d"]
             if sname in ("F-43m", "Fd-3m"):
                 choices = choices + ["sp3"]
             orbs[sp] = choices[int(rng.integers(len(choices)))]
-        nw = sum(NORB[orbs[n]] for n in atom_names) * (2 if soc else 1)
+        nw = sum(NORB[o] for n in atom_names for o in SHELLS[orbs[n]]) * (2 if soc else 1)
         if nw <= (12 if not ctx.thorough else 16):
             break
     else:
         raise harness.Skip("projection set too large")
-    proj = [f"{sp}:{orbs[sp]}" for sp in species]
-    # Wannier functions in the order symmetrize() expects: per projection, per atom of that species, per orbital, spin interlaced
-    cred = []
+    # projection entries (species, orbital string, orbitals per site)
+    entries = []
+    proj_form = {}
     for sp in species:
-        for ia, n in enumerate(atom_names):
-            if n == sp:
-                cred += [pos[ia]] * (NORB[orbs[sp]] * (2 if soc else 1))
+        shells = SHELLS[orbs[sp]]
+        if len(shells) == 2 and rng.random() < 0.5:
+            entries.append((sp, ";".join(shells), sum(NORB[o] for o in shells)))
+            proj_form[sp] = "combined"
+        else:
+            entries += [(sp, o, NORB[o]) for o in shells]
+            proj_form[sp] = "separate" if len(shells) == 2 else "single"
+    if len(entries) > 1 and rng.random() < 0.3:
+        entries = [entries[i] for i in rng.permutation(len(entries))]     # projections of one species need not be adjacent
+    proj = [spaced(rng, sp, o) for sp, o, _ in entries]
+    multi_shell = any(len(SHELLS[orbs[sp]]) == 2 for sp in species)
+    # Wannier functions in the order symmetrize() expects: per projection, per atom of that species, per orbital, spin interlaced
+    spin_factor = 2 if soc else 1
+    cred = []
+    nper = []
+    for sp, o, n in entries:
+        for ia, nm in enumerate(atom_names):
+            if nm == sp:
+                cred += [pos[ia]] * (n * spin_factor)
+                nper.append(n * spin_factor)
     cred = np.array(cred)
+    assert len(cred) == nw
+    starts = np.concatenate([[0], np.cumsum(nper)])
+    slices = [slice(int(starts[i]), int(starts[i + 1])) for i in range(len(nper))]
     lattice = np.array(struct["lattice"], dtype=float)
     noise = rng.normal(size=cred.shape) * (0.01 if rng.random() < 0.5 else 0.0)
-    keys = ["Ham", "AA"] + (["SS"] if soc else []) + (["BB", "CC"] if rng.random() < 0.3 else [])
+    keys = ["Ham", "AA"] + (["SS"] if soc and not doubled else []) + (["BB", "CC"] if rng.random() < 0.3 else [])
     radius = rng.uniform(1.0, 1.5)
     iR = gen_systems.symmetric_R_set(rng, radius=radius)
-    mats = gen_systems.random_matrices(rng, iR, lattice, nw, keys=keys)
-    system = gen_systems.make_system(lattice, iR, mats, cred + noise, spinor=soc)
-    wit = dict(structure=sname, proj=proj, soc=soc, noisy_start=bool(np.abs(noise).max() > 0), magnetic=mag is not None, num_wann=nw, keys=keys, nR_before=len(iR), params=struct.get("params"))
-    kw = dict(proj=proj, positions=pos, atom_name=atom_names, soc=soc, magmom=None if mag is None else np.array(mag), reorder_back=True)
+    if doubled:
+        mats = gen_systems.random_matrices(rng, iR, lattice, nw // 2, keys=keys)
+        system = gen_systems.make_system(lattice, iR, mats, (cred + noise)[::2], spinor=False)
+        system.double_spin()
+        ctx.count("double_spin_before")
+    else:
+        mats = gen_systems.random_matrices(rng, iR, lattice, nw, keys=keys)
+        system = gen_systems.make_system(lattice, iR, mats, cred + noise, spinor=soc)
+    # --- history before the operation: rvec.copy(), do_ws_dist, npz round trip
+    history = "as_built"
+    if rng.random() < 0.35:
+        system, history = gen_systems.history_variant(rng, system, workdir="/tmp")
+        ctx.count(f"history_before:{history}")
+    pos_arg, pos_form = as_form(rng, pos, "positions")
+    names_arg, names_form = as_form(rng, atom_names, "names")
+    reorder_back = bool(rng.random() < 0.6)
+    silent = (None, True, False)[int(rng.integers(3))] if rng.random() < 0.3 else None
+    wit = dict(structure=sname, proj=proj, soc=soc, noisy_start=bool(np.abs(noise).max() > 0), magnetic=mag is not None, num_wann=nw, keys=keys,
+               nR_before=len(iR), params=struct.get("params"), atom_names=list(atom_names), positions=pos.tolist(), merged_species=merged,
+               atoms_permuted=atoms_permuted, double_spin=doubled, history=history, reorder_back=reorder_back, silent=silent,
+               forms=(pos_form, names_form))
+    kw = dict(proj=proj if rng.random() < 0.7 else tuple(proj), positions=pos_arg, atom_name=names_arg, soc=soc,
+              magmom=None if mag is None else (np.array(mag) if rng.random() < 0.5 else np.array(mag).tolist()), reorder_back=reorder_back)
+    if silent is not None:
+        kw["silent"] = silent
     if rng.random() < 0.5:
         monitors.warm_caches(system)   # a system that has been used before it is symmetrised
     # every third case symmetrises over a proper subgroup through the documented symmetrize2(symmetrizer, use_symmetries_index=...):
-    # the symmetrizer comes from a throw-away copy, the subgroup is the closure of one or two random operations
+    # the symmetrizer comes from a throw-away copy, the subgroup is the closure of one or two random operations;
+    # cases with idx % 4 == 1 use the documented cutoff / cutoff_dict of symmetrize2 (possibly together with a subgroup)
     sub_index = None
-    if idx % 3 == 2:
-        import copy
+    sub_arg = None
+    cut_kw = None
+    want_sub = idx % 3 == 2
+    want_cut = idx % 4 == 1
+    sym_probe = None
+    if want_sub or want_cut:
         probe = copy.deepcopy(system)
         with env.quiet():
-            sym_probe = probe.symmetrize(**kw)
-        if sym_probe is not None:
-            sub_index = random_subgroup(rng, sym_probe.spacegroup)
-            if sub_index is not None and len(sub_index) == len(sym_probe.spacegroup.symmetries):
-                sub_index = None
-    if sub_index is not None:
-        def do_symmetrize():
-            system.symmetrize2(sym_probe, use_symmetries_index=list(sub_index))
+            sym_probe = probe.symmetrize(**dict(kw, reorder_back=True))
+    if sym_probe is not None and want_sub:
+        sub_index = random_subgroup(rng, sym_probe.spacegroup)
+        if sub_index is not None and len(sub_index) == len(sym_probe.spacegroup.symmetries):
+            sub_index = None
+        if sub_index is not None:
+            # the index list in another container form / order (equal as a set)
+            sub_arg = [int(i) for i in sub_index]
+            form = int(rng.integers(4))
+            if form == 1:
+                sub_arg = tuple(sub_arg)
+            elif form == 2:
+                sub_arg = np.array(sub_arg)
+            elif form == 3:
+                sub_arg = [sub_arg[i] for i in rng.permutation(len(sub_arg))]
+            wit["subgroup_form"] = ("list", "tuple", "array", "shuffled list")[form]
+    if sym_probe is not None and want_cut:
+        bm = block_maxima(system, keys, slices)
+        modes = ["dict_subset", "scalar_and_dict_keep", "scalar", "dict_all"]
+        mode = modes[int(rng.integers(len(modes)))]
+        if mode == "dict_subset":
+            nsub = int(rng.integers(1, len(keys)))
+            subset = [keys[i] for i in rng.permutation(len(keys))[:nsub]]
+            cuts = {k: pick_cutoff(rng, bm[k].ravel()) for k in subset}
+            cut_kw = dict(cutoff_dict=dict(cuts))
+        elif mode == "scalar_and_dict_keep":
+            keep = keys[int(rng.integers(len(keys)))]
+            c = pick_cutoff(rng, np.concatenate([bm[k].ravel() for k in keys if k != keep]))
+            cuts = {k: c for k in keys if k != keep}
+            cut_kw = dict(cutoff=c, cutoff_dict={keep: -1})
+        elif mode == "scalar":
+            c = pick_cutoff(rng, np.concatenate([bm[k].ravel() for k in keys]))
+            cuts = {k: c for k in keys}
+            cut_kw = dict(cutoff=c)
+        else:
+            cuts = {k: pick_cutoff(rng, bm[k].ravel()) for k in keys}
+            cut_kw = dict(cutoff_dict=dict(cuts))
+        if any(c is None for c in cuts.values()):
+            cut_kw = None
+            ctx.count("cutoff_tie_skipped")
+        else:
+            wit["cutoff_mode"] = mode
+            wit["cutoff"] = {k: float(c) for k, c in cuts.items()}
+            twin = copy.deepcopy(system)
+            wit["cutoff_blocks_dropped"] = truncate_blocks(twin, cuts, slices)
+    use_symmetrize2 = sub_index is not None or cut_kw is not None
+    if use_symmetrize2:
+        def do_symmetrize(sysobj, first=True):
+            kw2 = {}
+            if sub_index is not None:
+                kw2["use_symmetries_index"] = copy.deepcopy(sub_arg)
+            if first and cut_kw is not None:
+                kw2.update(copy.deepcopy(cut_kw))
+            try:
+                sysobj.symmetrize2(sym_probe, **kw2)
+            except AssertionError as e:
+                # known finding (KNOWN_FINDINGS.txt): when a whole star of (R, atom a, atom b) blocks lies below the cutoff in every matrix the
+                # bookkeeping of SymWann.average_XX_block(mode="single") fails; own mechanism key, so that the assertion is still reported as a
+                # new violation wherever it shows up without a cutoff
+                if first and cut_kw is not None and wit.get("cutoff_mode") in ("scalar", "dict_all") and "some R vectors were not set" in str(e):
+                    raise harness.Violation("symmetrize2(cutoff):AssertionError_when_a_whole_star_of_blocks_is_below_the_cutoff", str(e)[:300], wit)
+                raise
             return sym_probe
-        wit["subgroup"] = [int(i) for i in sub_index]
-        ctx.count("subgroup_cases")
+        if sub_index is not None:
+            wit["subgroup"] = [int(i) for i in sub_index]
+            ctx.count("subgroup_cases")
     else:
-        def do_symmetrize():
-            return system.symmetrize(**kw)
-    symmetrizer = do_symmetrize()
+        def do_symmetrize(sysobj, first=True):
+            if first or reorder_back:
+                return sysobj.symmetrize(**kw)
+            # the Wannier functions may have been regrouped by the first call (reorder_back=False): the returned symmetrizer describes the new order
+            sysobj.symmetrize2(symmetrizer)
+            return symmetrizer
+    # scale of every matrix taken from the INPUT: a matrix may vanish by symmetry after the operation (AA of one s orbital on an inversion centre)
+    in_scale = {key: float(np.abs(system._XX_R[key]).max()) for key in keys}
+    symmetrizer = do_symmetrize(system)
+    if cut_kw is not None:
+        # ---- (0) documented meaning of the cutoff: same result as symmetrising the model in which the small blocks were zeroed by hand -------------
+        with env.quiet():
+            do_symmetrize(twin, first=False)
+        got, ref = matrices_by_R(system), matrices_by_R(twin)
+        for key in keys:
+            scale = max(in_scale[key], max(np.abs(x).max() for x in ref[key].values()))
+            worst = 0.0
+            for R in set(got[key]) | set(ref[key]):
+                a, b = got[key].get(R), ref[key].get(R)
+                worst = max(worst, np.abs(a if b is None else b if a is None else a - b).max())
+            ctx.close("symmetrize2(cutoff)!=symmetrize2(model_truncated_by_hand)", worst, 0.0, atol=1e-10 * scale, rtol=0,
+                      what=f"cutoff {key}", witness=wit)
+        ctx.close("symmetrize2(cutoff)!=symmetrize2(model_truncated_by_hand):centres", system.wannier_centers_cart, twin.wannier_centers_cart,
+                  atol=1e-10, rtol=0, what="centres", witness=wit)
+        ctx.count("cutoff_cases")
+        ctx.count("cutoff_cases_with_dropped_blocks", int(wit["cutoff_blocks_dropped"] > 0))
     monitors.assert_no_stale_caches(ctx, system, "symmetrize", wit)
     sg_ops = None
     try:
@@ -145,11 +363,11 @@ def case(ctx, rng, idx, state):
     wit["nR_after"] = system.rvec.nRvec
     # ---- (1) symmetry of energies / Berry curvature / spin at random k, tensor action written here -----------------------------------
     noisy = bool(np.abs(noise).max() > 0)
-    mixing = any(orbs[sp] in ("p", "d", "sp3") for sp in species)
+    mixing = any(orbs[sp] != "s" for sp in species)
     # the property speaks about the (total) Berry curvature; its split into internal and external terms is symmetric term by term only when
     # the centres of the individual Wannier functions are symmetric themselves (exact starting centres), see the known finding on centres
     quantities = ["energy", "berry_curvature"] + ([] if noisy else ["berry_curvature_internal_terms", "berry_curvature_external_terms"]) \
-        + (["spin"] if soc else [])
+        + (["spin"] if "SS" in keys else [])
     recip = system.recip_lattice
     for ik in range(3 if not ctx.thorough else 6):
         k = rng.uniform(0, 1, 3)
@@ -179,7 +397,7 @@ def case(ctx, rng, idx, state):
     for key in keys:
         if key in gen_systems.NON_HERMITIAN:
             continue
-        scale = max(np.abs(x).max() for x in byR[key].values())
+        scale = max(in_scale[key], max(np.abs(x).max() for x in byR[key].values()))
         worst = 0.0
         for R, X in byR[key].items():
             mR = tuple(-x for x in R)
@@ -194,9 +412,21 @@ def case(ctx, rng, idx, state):
     # centres of the Wannier functions of one atom are averaged (the trace of the position operator over the shell is basis independent:
     # orbitals of a shell that the site group mixes, e.g. px/py under C3, need not have individually symmetric centres)
     cr_all = system.wannier_centers_red
-    nper = [NORB[orbs[sp]] * (2 if soc else 1) for sp in species for n in atom_names if n == sp]
-    starts = np.concatenate([[0], np.cumsum(nper)])
-    cr = np.array([cr_all[starts[i]:starts[i + 1]].mean(axis=0) for i in range(len(nper))])
+    if reorder_back or use_symmetrize2:
+        cr = np.array([cr_all[starts[i]:starts[i + 1]].mean(axis=0) for i in range(len(nper))])
+    else:
+        # reorder_back=False: the Wannier functions may have been regrouped by Wyckoff position; the functions of one atom are found by position
+        # (the start was at most a few 0.01 of a lattice vector off the atom)
+        d = cr_all[:, None, :] - pos[None, :, :]
+        d -= np.round(d)
+        dist = np.linalg.norm(d @ lattice, axis=2)
+        owner = dist.argmin(axis=1)
+        if len(pos) > 1 and np.sort(dist, axis=1)[:, 0].max() > 0.3 * np.sort(dist, axis=1)[:, 1].min():
+            ctx.violation("wannier_centres_not_on_the_atoms_after_symmetrize", f"largest distance to the nearest atom {dist.min(axis=1).max()}", wit)
+        cr = np.array([(pos[ia] + d[owner == ia, ia].mean(axis=0)) for ia in range(len(pos)) if np.any(owner == ia)])
+        regrouped = not np.array_equal(owner, [ia for sp, o, n in entries for ia, nm in enumerate(atom_names) if nm == sp for _ in range(n * spin_factor)])
+        ctx.count("regrouped_by_wyckoff_position(reorder_back=False)", int(regrouped))
+        ctx.count("reorder_back_false_cases")
     if sg_ops is not None:
         for W, t in sg_ops:
             img = cr @ W.T + t[None, :]
@@ -209,12 +439,27 @@ def case(ctx, rng, idx, state):
         ctx.count("centre_maps_checked")
     # centres must sit on the atoms (the start was at most 0.01 Angstrom-ish off)
     # ---- (4) idempotence -------------------------------------------------------------------------------------------------------------
+    # history after the operation: the symmetrised model written to disk and read back gives the same values and is symmetrised again
+    if rng.random() < 0.25:
+        kk = tuple(rng.uniform(0, 1, 3))
+        qq = ["energy", "berry_curvature"]
+        r_mem = wb.evaluate_k(system, k=kk, quantities=qq, return_single_as_dict=True)
+        loaded = npz_roundtrip(system)
+        r_npz = wb.evaluate_k(loaded, k=kk, quantities=qq, return_single_as_dict=True)
+        Esc = np.abs(r_mem["energy"]).max()
+        ctx.close("symmetrized_system_after_npz_roundtrip:energy", r_npz["energy"], r_mem["energy"], rtol=1e-10, scale=Esc, what="energy", witness=wit)
+        ctx.close("symmetrized_system_after_npz_roundtrip:berry_curvature", r_npz["berry_curvature"], r_mem["berry_curvature"], rtol=1e-8,
+                  scale=max(np.abs(r_mem["berry_curvature"]).max(), 1e-3 * Esc), what="berry curvature", witness=wit)
+        system = loaded
+        ctx.count("history_after:npz_roundtrip")
+    if wit.get("group_order", 0) > 0 and symmetrizer is None:
+        ctx.count("reordered_and_ordered_back")
     before = matrices_by_R(system)
     cbefore = system.wannier_centers_cart.copy()
-    do_symmetrize()
+    do_symmetrize(system, first=False)
     after = matrices_by_R(system)
     for key in keys:
-        scale = max(np.abs(x).max() for x in before[key].values())
+        scale = max(in_scale[key], max(np.abs(x).max() for x in before[key].values()))
         worst = 0.0
         for R in set(before[key]) | set(after[key]):
             a = after[key].get(R)
@@ -225,7 +470,7 @@ def case(ctx, rng, idx, state):
             else:
                 worst = max(worst, np.abs(a - b).max())
         ctx.close("symmetrize_is_not_idempotent", worst, 0.0, atol=1e-9 * scale, rtol=0, what=f"second symmetrisation changed {key}", witness=wit)
-    mixing = any(orbs[sp] in ("p", "d", "sp3") for sp in species)
+    mixing = any(orbs[sp] != "s" for sp in species)
     mech = "symmetrize_is_not_idempotent:centres"
     if noisy and mixing:
         # known finding (KNOWN_FINDINGS.txt): the centres are averaged with the weights |D_ij(g)|^2, which is not a projection when the site
@@ -233,7 +478,12 @@ def case(ctx, rng, idx, state):
         mech = "symmetrize_is_not_idempotent:centres[non-symmetric_start,shell_mixed_by_site_group]"
     ctx.close(mech, system.wannier_centers_cart, cbefore, atol=1e-9, rtol=0, what="centres", witness=wit)
     ctx.count("noisy_start_cases", int(noisy))
-    ctx.nontrivial((sname, tuple(proj), soc, mag is not None, tuple(keys)))
+    ctx.nontrivial((sname, tuple(p.replace(" ", "") for p in proj), soc, mag is not None, tuple(keys), merged, doubled, cut_kw is not None))
+    ctx.count("merged_species_cases", int(merged))
+    ctx.count("atoms_permuted_cases", int(atoms_permuted))
+    ctx.count("multi_shell_cases", int(multi_shell))
+    ctx.count("combined_projection_cases(;)", int(any(v == "combined" for v in proj_form.values())))
+    ctx.count("separate_projection_cases", int(any(v == "separate" for v in proj_form.values())))
     ctx.count(f"group_{'large' if pg.size >= 16 else 'small'}")
     ctx.count("magnetic_cases", int(mag is not None))
     ctx.count("soc_cases", int(soc))
@@ -249,5 +499,7 @@ if __name__ == "__main__":
              "projections, soc, magnetic, matrices)",
         assumptions=["space group from irrep/spglib through the code's own symmetrize()", "tensor action on axial vectors written in the harness",
                      "only consistent projection sets (full shells; sp3 on tetrahedral sites)"],
-        required_counters=("subgroup_cases", "k_points_checked", "centre_maps_checked", "group_large", "group_small", "magnetic_cases", "soc_cases"),
+        required_counters=("subgroup_cases", "k_points_checked", "centre_maps_checked", "group_large", "group_small", "magnetic_cases", "soc_cases",
+                           "cutoff_cases", "cutoff_cases_with_dropped_blocks", "multi_shell_cases", "merged_species_cases", "atoms_permuted_cases",
+                           "reorder_back_false_cases"),
     )
